@@ -572,6 +572,9 @@ func (s *pstate) eval(v ssa.Value) *Term {
 		}
 		return node("unop"+x.Op.String(), s.term(x.X))
 	case *ssa.BinOp:
+		if b, ok := types.Unalias(x.Type()).Underlying().(*types.Basic); ok && b.Info()&types.IsString != 0 && x.Op == token.ADD {
+			return node("concat", s.term(x.X), s.term(x.Y)) // string concatenation is not commutative
+		}
 		return mkBin(x.Op, s.term(x.X), s.term(x.Y))
 	case *ssa.Phi:
 		if t, ok := s.env[x]; ok {
